@@ -103,8 +103,10 @@ StepAligned ==
    /\ Ev.k = "is_aligned"
    /\ act' = <<"is_aligned">>
    /\ obs' = Ev.got
-   /\ Verd(Ev.got = Aligned(mesh, Ev.other),
-           IF Aligned(mesh, Ev.other) THEN "C14_IsAligned:aligned-reported-unaligned" ELSE "C14_IsAligned:unaligned-reported-aligned")
+   (* stretch = 1: the other mesh has the logged origin and counts but its upper corner lies 4e-4 of a cell beyond the     *)
+   (* lattice (cell sizes differ by 8e-6 relative over 50 cells): the cell sizes do not agree - not aligned                *)
+   /\ LET want == Ev.stretch = 0 /\ Aligned(mesh, Ev.other) IN
+         Verd(Ev.got = want, IF want THEN "C14_IsAligned:aligned-reported-unaligned" ELSE "C14_IsAligned:unaligned-reported-aligned")
    /\ Verd(Ev.back = Ev.got, "C14_IsAligned:not-symmetric")
    /\ UNCHANGED <<mesh, subs, hist>>
 StepReload ==
